@@ -6,9 +6,9 @@ From PDT Require Import Model.Value Model.Ops Model.Expr Model.RefSem.
 Import ListNotations.
 Open Scope list_scope.
 
-Definition groups := list (list value * list row).
+Definition groups (A : Type) := list (list value * list A).
 
-Fixpoint add_to (k : list value) (r : row) (a : groups) : option groups :=
+Fixpoint add_to {A} (k : list value) (r : A) (a : groups A) : option (groups A) :=
   match a with
   | [] => None
   | (k', g) :: a' =>
@@ -16,12 +16,12 @@ Fixpoint add_to (k : list value) (r : row) (a : groups) : option groups :=
       else match add_to k r a' with Some a'' => Some ((k', g) :: a'') | None => None end
   end.
 
-Definition finish (acc : groups) : groups := map (fun g => (fst g, rev (snd g))) (rev acc).
+Definition finish {A} (acc : groups A) : groups A := map (fun g => (fst g, rev (snd g))) (rev acc).
 
-Lemma group_rows_nil key acc : group_rows key [] acc = finish acc.
+Lemma group_rows_nil {A} (key : A -> list value) acc : group_rows key [] acc = finish acc.
 Proof. reflexivity. Qed.
 
-Lemma group_rows_cons key r rs acc :
+Lemma group_rows_cons {A} (key : A -> list value) r rs acc :
   group_rows key (r :: rs) acc =
   match add_to (key r) r acc with
   | Some acc' => group_rows key rs acc'
@@ -35,8 +35,9 @@ Proof.
 Qed.
 
 Section Rel.
-Variable RR : row -> row -> Prop.
-Definition RG (x y : list value * list row) : Prop := fst x = fst y /\ Forall2 RR (snd x) (snd y).
+Context {A B : Type}.
+Variable RR : A -> B -> Prop.
+Definition RG (x : list value * list A) (y : list value * list B) : Prop := fst x = fst y /\ Forall2 RR (snd x) (snd y).
 
 Lemma add_to_rel k r b acc acc' : RR r b -> Forall2 RG acc acc' ->
   match add_to k r acc, add_to k b acc' with
@@ -52,7 +53,7 @@ Proof.
     constructor; [split; [reflexivity|exact Hg]|exact IH].
 Qed.
 
-Lemma Forall2_rev {A B} (R : A -> B -> Prop) l l' : Forall2 R l l' -> Forall2 R (rev l) (rev l').
+Lemma Forall2_rev {X Y} (R : X -> Y -> Prop) l l' : Forall2 R l l' -> Forall2 R (rev l) (rev l').
 Proof.
   induction 1 as [|a b l l' Hab _ IH]; simpl; [constructor|]. apply Forall2_app; [exact IH|]. constructor; [exact Hab|constructor].
 Qed.
@@ -79,10 +80,10 @@ Qed.
 End Rel.
 
 (* every group is non-empty and carries the key of its first row *)
-Definition good_acc (key : row -> list value) (acc : groups) : Prop :=
+Definition good_acc {A} (key : A -> list value) (acc : groups A) : Prop :=
   forall k g, In (k, g) acc -> exists r0 rest, rev g = r0 :: rest /\ k = key r0.
 
-Lemma add_to_good key k r acc acc' : good_acc key acc -> add_to k r acc = Some acc' -> good_acc key acc'.
+Lemma add_to_good {A} (key : A -> list value) k r acc acc' : good_acc key acc -> add_to k r acc = Some acc' -> good_acc key acc'.
 Proof.
   revert acc'. induction acc as [|[k1 g1] acc IH]; intros acc' G H; [discriminate H|].
   cbn [add_to] in H. destruct (values_eqb k k1).
@@ -96,7 +97,7 @@ Proof.
     + apply (IH a''); [|reflexivity|exact Hin]. intros k2 g2 H2. apply G. right. exact H2.
 Qed.
 
-Lemma group_rows_good key : forall l acc, good_acc key acc ->
+Lemma group_rows_good {A} (key : A -> list value) : forall l acc, good_acc key acc ->
   forall k g, In (k, g) (group_rows key l acc) -> exists r0 rest, g = r0 :: rest /\ k = key r0.
 Proof.
   induction l as [|r l IH]; intros acc G k g Hin.
